@@ -346,6 +346,7 @@ func (v *vstore) checkDrained() {
 	est := int64(v.s.EstimatedSize())
 	if sum != est {
 		v.tr.viol(fmt.Sprintf("C02: drained: resident cost %d, EstimatedSize %d", sum, est))
+		v.tr.viol(fmt.Sprintf("C16: after the writes have drained EstimatedSize() = %d but the resident entries cost %d in total", est, sum))
 	}
 	if est > int64(v.s.cap) {
 		v.tr.viol(fmt.Sprintf("C02: drained: resident cost %d above MaxSize %d", est, v.s.cap))
